@@ -20,6 +20,7 @@
 -/
 import EnrVerif.Proofs.CodecTheorems
 import EnrVerif.Proofs.SigGuards
+import EnrVerif.Proofs.Examples
 
 namespace EnrVerif
 
@@ -110,6 +111,99 @@ theorem C01_highS_twin_rejected (P : Secp.Pt) (d rb sb : Bytes) (hr : rb.length 
 theorem C01_ed_noncanonical_s_rejected (A : Ed.EdPub) (msg sig : Bytes) (hl : sig.length = 64)
     (hs : Ed.ℓ ≤ Ed.leToNat (sig.drop 32)) : Ed.verify A msg sig = false :=
   ed_noncanonical_s A msg sig hl hs
+
+/-! ### non-vacuity -/
+
+/-- an accepted input (the 18 bytes of `r0`; signature `01 02 03 0d`, key `01 02 03`) -/
+example : decode tinyS [209, 132, 1, 2, 3, 13, 1, 130, 105, 100, 130, 118, 52, 116, 131, 1, 2, 3] =
+    .ok (r0, []) := by decide +kernel
+
+/-- `C01_accepted_authentic` on it: the key is the one in the record, `pk0` -/
+example : ∃ pk, tinyS.enrToPublic r0.content = .ok pk ∧ r0.id = some vV4 ∧
+    tinyS.verify pk r0.rlpContent r0.sig = true ∧ r0.nodeId = nodeIdOf tinyS pk :=
+  C01_accepted_authentic tinyS r0Bytes r0 [] r0Bytes_decodes
+
+example : tinyS.enrToPublic r0.content = .ok pk0 ∧ tinyS.verify pk0 r0.rlpContent r0.sig = true :=
+  ⟨r0_pub, by decide⟩
+
+/-- the signed payload of `r0`: the list `[1, "id", "v4", "t", 01 02 03]` -/
+example : r0.rlpContent = [204, 1, 130, 105, 100, 130, 118, 52, 116, 131, 1, 2, 3] := by decide
+
+/-- the decoded record reports itself as verifying (from bytes and from text) -/
+example : r0.verify tinyS = .ok true := C01_decoded_verifies tinyS r0Bytes r0 [] r0Bytes_decodes
+
+example : r0.verify tinyS = .ok true :=
+  C01_parsed_verifies tinyS r0Text r0 (by decide +kernel)
+
+/-- tampered copies of `r0Bytes`: one byte of the public-key value changed … -/
+example : decode tinyS [209, 132, 1, 2, 3, 13, 1, 130, 105, 100, 130, 118, 52, 116, 131, 1, 2, 4] =
+    .error (.custom .invalidSignature) := by decide +kernel
+
+/-- … one byte of the signature changed … -/
+example : decode tinyS [209, 132, 1, 2, 3, 14, 1, 130, 105, 100, 130, 118, 52, 116, 131, 1, 2, 3] =
+    .error (.custom .invalidSignature) := by decide +kernel
+
+/-- … the sequence number 1 replaced by 128 … -/
+example : decode tinyS [210, 132, 1, 2, 3, 13, 129, 128, 130, 105, 100, 130, 118, 52, 116, 131, 1, 2, 3] =
+    .error (.custom .invalidSignature) := by decide +kernel
+
+/-- … a pair appended (`"x" ↦ 7`) … -/
+example : decode tinyS [211, 132, 1, 2, 3, 13, 1, 130, 105, 100, 130, 118, 52, 116, 131, 1, 2, 3, 120, 7] =
+    .error (.custom .invalidSignature) := by decide +kernel
+
+/-- … the signature of another record (`r1`'s, `01 02 03 14`) … -/
+example : decode tinyS [209, 132, 1, 2, 3, 20, 1, 130, 105, 100, 130, 118, 52, 116, 131, 1, 2, 3] =
+    .error (.custom .invalidSignature) := by decide +kernel
+
+/-- … the public-key entry renamed (`"t"` to `"u"`) -/
+example : decode tinyS [209, 132, 1, 2, 3, 13, 1, 130, 105, 100, 130, 118, 52, 117, 131, 1, 2, 3] =
+    .error (.custom .unknownSignature) := by decide +kernel
+
+/-- `C01_tamper_rejected`: its hypotheses hold for the pairs of `r0` under a foreign signature
+    (`pk1`'s over the same payload), whatever follows in the buffer -/
+example : ∀ rest, ∃ e, decode tinyS
+    (encList (encBytes (tinySign pk1 payload0) ++ encUint 1 ++ Record.pairsBytes content0) ++ rest) =
+      .error e :=
+  C01_tamper_rejected tinyS (tinySign pk1 payload0) 1 content0 r0_contentOK (by decide) (by decide)
+    (fun pk hpk => by
+      have h0 : tinyS.enrToPublic content0 = .ok pk0 := r0_pub
+      rw [h0] at hpk
+      cases hpk
+      decide)
+
+/-- `C01_payload_binds_fields` (contrapositive): `r0` and `rMax` differ in the sequence number, so
+    their signed payloads differ -/
+example : r0.rlpContent ≠ rMax.rlpContent := fun h =>
+  absurd (C01_payload_binds_fields tinyS r0 rMax r0_valid rMax_valid h).1 (by decide)
+
+/-- `C01_alteration`: two different accepted inputs.  The toy signature binds the signer's key and
+    the *length* of the payload only, so replacing the sequence number 1 of `r0` by 2 is accepted
+    again (a "forgery" the toy scheme permits; unforgeability is an assumption about the real
+    schemes, outside every theorem) — and, as the theorem says, what comes out is a different record
+    carrying a signature valid for its own fields. -/
+example :
+    let b2 : Bytes := [209, 132, 1, 2, 3, 13, 2, 130, 105, 100, 130, 118, 52, 116, 131, 1, 2, 3]
+    decode tinyS b2 = .ok ({ r0 with seq := 2 }, []) ∧
+      (r0.seq ≠ ({ r0 with seq := 2 } : Record).seq ∨ r0.content ≠ ({ r0 with seq := 2 } : Record).content ∨
+        r0.sig ≠ ({ r0 with seq := 2 } : Record).sig) := by
+  intro b2
+  have h2 : decode tinyS b2 = .ok ({ r0 with seq := 2 }, []) := by decide +kernel
+  exact ⟨h2, C01_alteration tinyS r0Bytes b2 r0 _ r0Bytes_decodes h2 (by decide)⟩
+
+/-- the concrete verifiers: a 63-byte signature -/
+example : k256S.verify [] [] (List.replicate 63 1) = false :=
+  (C01_wrong_length_rejected [] [] (List.replicate 63 1) (by decide)).1
+
+/-- the high-S twin of the ECDSA signature `(r, s) = (1, 1)` -/
+example (P : Secp.Pt) (d : Bytes) :
+    Secp.ecdsaVerifyPrehash P d
+      (natToBeFixed 32 1 ++ natToBeFixed 32 (Secp.n - beToNat (natToBeFixed 32 1))) = false :=
+  C01_highS_twin_rejected P d (natToBeFixed 32 1) (natToBeFixed 32 1) (by decide) (by decide)
+    (by decide) (by decide)
+
+/-- Ed25519: `s` = 2^256 - 1 ≥ ℓ -/
+example (A : Ed.EdPub) (msg : Bytes) : Ed.verify A msg (List.replicate 64 255) = false :=
+  C01_ed_noncanonical_s_rejected A msg _ (by decide) (by decide)
 
 #print axioms C01_accepted_authentic
 #print axioms C01_decoded_verifies
